@@ -227,7 +227,7 @@ chk("C05", "proof",
     "elements (wrapped link/image destinations incl. non-ASCII, escaped and angle-bracket forms, multi-line code spans, raw HTML, emphasis, hard "
     "breaks) in paragraphs, block quotes and list items. calc_deltas is tied to ParserHelper.calculate_deltas on every string over {a, LF} to length 7/10.",
     "Trusted: Coq kernel + vm_compute, extraction + driver.ml, the position abstraction harness/posabs.py (expected opening text per token kind). "
-    "The differential against the spec model's positions (DESIGN) is not built.",
+    "Leaf-block positions are also compared with the spec model CM's (Spec/RuleSpec.v leaf_positions) on the C03 spaces.",
     "Certified position oracle + proved delta arithmetic; extraction; enumeration of positioned tokens",
     "DESIGN.md section 4 C05")
 
@@ -275,21 +275,21 @@ chk("C03", "other",
     "DESIGN.md section 4 C03")
 
 chk("C06", "other",
-    "PARTIAL. 'The documented trigger condition' is made precise by the Gallina specification Spec/RuleSpec.v: for 19 rules (MD001, MD003, MD009, "
-    "MD012, MD013, MD018, MD019, MD022, MD023, MD024, MD025, MD026, MD031, MD035, MD040, MD041, MD046, MD047, MD048) a function from the lines of the "
+    "PARTIAL. 'The documented trigger condition' is made precise by the Gallina specification Spec/RuleSpec.v: for 21 rules (MD001, MD003, MD004, MD009, "
+    "MD012, MD013, MD018, MD019, MD022, MD023, MD024, MD025, MD026, MD031, MD032, MD035, MD040, MD041, MD046, MD047, MD048) a function from the lines of the "
     "document, the block structure the spec model CM gives them and the rule's own configuration to the lines that must be reported and the lines "
     "about which the documentation (newdocs/src/plugins/rule_md*.md) says nothing definite. It is written from the documentation, not from the rule "
     "implementations. Theorems (Coq, closed) are about the specification: MD013 reports a line exactly when it is longer than the limit of its "
     "category and (unless strict) has a space past it, never in a switched-off category, monotonically in the limits when strict; MD009 exactly the "
     "lines outside code blocks with a positive number of trailing spaces other than br_spaces; MD012 only blank lines; MD047 never on a text ending "
     "in a newline and always at the last line otherwise; MD001 only at headings of level >= 2. That each rule implements its specification is NOT "
-    "proved: the reported lines are compared on documents of <= 3 lines over a 37-template vocabulary (headings, long lines, trailing spaces, fences, "
+    "proved: the reported lines are compared on documents of <= 3 lines over a 40-template vocabulary (headings, long lines, trailing spaces, fences, "
     "breaks, containers), 30 000 4-line documents and the general vocabulary, under 6 configurations that move every documented configuration item, "
     "restricted to documents of the fragment F whose block structure PyMarkdown gets right (the property's premise). Failing inputs of the pinned "
     "tree are listed as known findings; two defects were repaired (a697cd3, f5b9cc5).",
     "Trusted: Coq kernel, extraction + driver.ml, the specification as a reading of the documentation (stated conventions for the reported line of "
     "multi-line constructs; open corners are never counted), the spec model CM, PyMarkdownApi.scan_string.",
-    "Gallina specification of 19 rules over the CM block structure + comparison of reported lines on enumerated documents and configurations (category 'other')",
+    "Gallina specification of 21 rules over the CM block structure + comparison of reported lines on enumerated documents and configurations (category 'other')",
     "DESIGN.md section 4 C06")
 
 chk("C08", "proof",
